@@ -29,6 +29,8 @@ INJECTIVE_KEYS = {
     ('CircuitBuilder::try_build_with_options', 'gates'): ('id', 'gate ids are unique per gate value; degree alone (or other numeric parameters) ties between different gates'),
 }
 
+LOSSY_PROJECTIONS = {'truncate', 'split_off', 'drain', 'pop', 'take', 'take_while', 'chars', 'len', 'get', 'first', 'last', 'split_at', 'split', 'starts_with', 'contains', 'find', 'nth', 'bytes'}
+
 RAYON_OK = {'enumerate', 'zip', 'chain', 'collect', 'flat_map', 'flat_map_iter', 'for_each', 'map', 'into_par_iter', 'par_chunks', 'par_chunks_exact', 'par_chunks_exact_mut', 'par_chunks_mut',
             'par_iter', 'par_iter_mut', 'join', 'len', 'step_by', 'rev', 'skip', 'take', 'copied', 'cloned', 'unzip', 'collect_into_vec', 'with_min_len', 'with_max_len', 'sum', 'min', 'max', 'count'}
 RAYON_UNORDERED = {'find_any', 'find_map_any', 'any', 'all', 'for_each_with', 'try_for_each', 'reduce', 'reduce_with', 'fold', 'try_reduce', 'position_any', 'par_bridge', 'par_sort_unstable', 'par_sort_unstable_by', 'par_sort_unstable_by_key'}
@@ -192,6 +194,12 @@ def run(F, ck, tier):
             if e.kind == 'call' and e.name and e.name.startswith('sort') and e.node.get('k') == 'MCall' and e.node['r'].get('k') == 'Local' and e.node['r']['n'] == local:
                 found = True
                 ok = any(flow.has_call(a, must) for a in e.args)
+                # ... and the id takes part WHOLE: a projection of it (a prefix, its length, a hash of it) is not injective
+                lossy = sorted({x['n'] for a in e.node.get('a', []) for x in walk(a) if x.get('k') == 'MCall' and x['n'] in LOSSY_PROJECTIONS} |
+                               {'[..]' for a in e.node.get('a', []) for x in walk(a) if x.get('k') == 'Index'})
+                if ok and lossy:
+                    ok = False
+                    why = 'the key closure applies %s to it, so different %s() values can compare equal; %s' % (', '.join(lossy), must, why)
         ck.ob('R19.3', 'sortkey:%s:%s' % (fn.name, local), found and ok, 'sort key of `%s` includes %s()' % (local, must) if (found and ok) else
               ('the sort of `%s` in %s no longer keys on %s(): %s - ties are broken by hash-set iteration order, so the circuit digest depends on the build\'s hash seed' % (local, fn.qual, must, why)) if found else
               'no sort of `%s` found in %s' % (local, fn.qual), '%s:%d' % (fn.file, fn.line))
@@ -216,6 +224,29 @@ def run(F, ck, tier):
             ck.ob('R19.2', 'rayon:%s:%s' % (meth, fnq), False, 'schedule-dependent or unreviewed rayon combinator %s in %s: results may depend on thread interleaving' % (meth, d), c['s'])
     ck.floor('R19.2', 'calls into rayon / maybe_rayon', nray, 60)
     ck.ob('R19.2', 'rayon:allowed-set', True, 'all other rayon calls use order-preserving combinators (%d calls)' % nray)
+    # ---------------------------------------------------------------- R19.6 packed strides need a size guard
+    ck.rule('R19.6', 'a loop that walks a domain in strides of the packing width (step_by(P::WIDTH), slicing i..i+WIDTH) sits in a function that compares the domain size with WIDTH (fallback or assertion): the width is 1, 4 or 8 depending on the build, a domain shorter than it must not make only SIMD builds fail')
+    nstr = 0
+    for fn in sorted(F.fns.values(), key=lambda f: f.qual):
+        if fn.crate not in ('plonky2', 'starky') or fn.body is None:
+            continue
+        steps = [x for x in walk(fn.body) if x.get('k') == 'MCall' and x.get('n') == 'step_by' and x.get('a') and
+                 any(y.get('k') == 'Def' and y.get('d', '').endswith('::WIDTH') for y in walk(x['a'][0]))]
+        if not steps:
+            continue
+        nstr += 1
+        guarded = False
+        for x in walk(fn.body):
+            if x.get('k') == 'If' and any(y.get('k') == 'Bin' and y.get('op') in ('Lt', 'Le', 'Gt', 'Ge') and
+                                          any(z.get('k') == 'Def' and z.get('d', '').endswith('::WIDTH') for z in list(walk(y['l'])) + list(walk(y['r']))) for y in walk(x['c'])):
+                guarded = True
+        ck.ob('R19.6', 'packed-stride:%s' % fn.qual, guarded, 'the domain size is compared with the packing width' if guarded else
+              'PACKED STRIDE WITHOUT SIZE GUARD: %s walks its domain with step_by(P::WIDTH) and slices i..i+WIDTH, but never compares the domain size with WIDTH: for a domain shorter than the packing width '
+              '(2 rows under AVX2, 4 under AVX-512) the slice is out of range and the prover panics - in SIMD builds only' % fn.qual, steps[0].get('s'))
+    ck.floor('R19.6', 'functions stepping by the packing width', nstr, 1)
+    # ---------------------------------------------------------------- R19.5 (AVX2 build, thorough tier)
+    from . import c14
+    c14.packed_canonical_operand(F, ck, 'R19.5')
     ck.decided += ['no hash iteration order reaches keys/proofs/encodings', 'gate list sorted by an injective key', 'rayon combinators are order-preserving (find_any only in grinding)']
     ck.undecided += ['lane-equality of packed (AVX2/AVX-512) arithmetic with scalar arithmetic (numeric)', 'debug/release arithmetic equality', 'bitwise determinism of transforms under any schedule']
     return 'Decides structural necessary conditions of C19 for hash-seed and schedule independence. SIMD lane equality is numeric and not decided.'
